@@ -9,7 +9,7 @@ From Coq Require Import String.
 From Coq Require Import List NArith ZArith Arith.
 Import ListNotations.
 From YP Require Import Base.Str Term.Term Unify.Unify Unify.Mgu Lang.Ast Lang.Lexer Lang.Cst Lang.Parser Lang.Unquote Lang.Literals Lang.Front
-  Comp.IR Comp.CompileBody Sem.Machine Engine.GetValue Lang.Denote Lang.Utf8 Lang.FileEntry Cli.Cli.
+  Comp.IR Comp.CompileBody Sem.Machine Engine.GetValue Lang.Denote Lang.Utf8 Lang.Utf8Strict Lang.FileEntry Cli.Cli.
 
 (* quote s = ' s ' with \' for every quote in s.  For every text without backslash -- quotes, line
    breaks, any code point -- it is lexed as the single token STRING and unquoted back to s. *)
@@ -164,6 +164,12 @@ Print Assumptions C16_file_encoding_injective.
 Theorem C16_cli_reads_text : forall s, forallb is_scalar s = true -> rd_of_bytes (utf8_encode s) = Cli.RText s.
 Proof. exact cli_reads_text. Qed.
 Print Assumptions C16_cli_reads_text.
+
+(* and the other way round: bytes that the strict decoder accepts ARE the encoding of the text it returns (shortest forms only,
+   no surrogates, nothing above U+10FFFF): the file and the text read from it determine each other *)
+Theorem C16_file_decoding_strict : forall l s, utf8_decode l = Some s -> l = utf8_encode s.
+Proof. exact utf8_decode_strict. Qed.
+Print Assumptions C16_file_decoding_strict.
 
 Theorem C16_file_ascii_bytes : forall s b, In b (utf8_encode s) -> (b < 128)%N -> In b s.
 Proof. exact utf8_ascii_bytes_are_characters. Qed.
